@@ -48,12 +48,38 @@ Theorem C12_fix_writes_are_reported : forall o p e,
         | WData d q k => fi_selected it = true /\ d = fi_disk it /\
                          ((q = fi_path it /\ (In (RFixed d q) (reports Fix o p) \/ In (RRecovered d q) (reports Fix o p)
                                               \/ In (RUnrecoverable d q) (reports Fix o p)))
-                          \/ (In q (fi_anc it) /\ k = KMkdir))
+                          \/ (In q (fi_anc it) /\ k = KMkdir)
+                          (* or the path did not exist before the run: its creation, the removal of what this run created
+                             and did not finish, the rename-back of a .unrecoverable copy *)
+                          \/ (q = fi_path it /\ fi_missing it = true /\ (k = KCreate \/ k = KUnlink \/ k = KRename)))
         | _ => False
         end)
   \/ (exists l s, e = WParity l s /\ In (RParityFixed l s) (reports Fix o p) /\ par_excluded o (N.to_nat l) = false).
 Proof. intros o p e WF H. exact (effects_allowed Fix o p e WF H). Qed.
 Print Assumptions C12_fix_writes_are_reported.
+
+(* fix removes a FILE only if the path did not exist before the run, this very run created it, and it did not finish it
+   (block range ending before its last block, early bail) or, under -e / -b, found it unsynced (check.c:1837-1885) *)
+Theorem C12_fix_removes_only_what_it_created : forall so it d q,
+  In (WData d q KUnlink) (fst (file_effects so it)) ->
+  q = fi_path it /\ fi_missing it = true /\ fi_unrec_copy it = false
+  /\ In (WData d q KCreate) (fst (file_effects so it)) /\ (fi_finished it = false \/ so = true).
+Proof. exact file_unlink_only_created. Qed.
+Print Assumptions C12_fix_removes_only_what_it_created.
+
+(* with syncedonly (-e / -b) an existing file that was modified since the last sync gets no effect and no report at all
+   (no rename to .unrecoverable, no write, no truncation, no time change) ... *)
+Theorem C12_fix_syncedonly_leaves_unsynced_alone : forall it, fi_missing it = false -> fi_unsynced it = true ->
+  file_effects true it = ([], []).
+Proof. exact syncedonly_unsynced_existing_untouched. Qed.
+Print Assumptions C12_fix_syncedonly_leaves_unsynced_alone.
+
+(* ... and a file deleted since is created empty and removed again: nothing remains, nothing is reported *)
+Theorem C12_fix_syncedonly_missing_is_transient : forall it, fi_missing it = true -> fi_unrec_copy it = false ->
+  file_effects true it =
+  (map (fun a => WData (fi_disk it) a KMkdir) (fi_anc it) ++ [WData (fi_disk it) (fi_path it) KCreate] ++ [WData (fi_disk it) (fi_path it) KUnlink], []).
+Proof. exact syncedonly_missing_transient. Qed.
+Print Assumptions C12_fix_syncedonly_missing_is_transient.
 
 (* data disks are written by fix and touch only *)
 Theorem C12_only_fix_and_touch_write_data : forall c o p d q k, In (WData d q k) (effects c o p) -> c = Fix \/ c = Touch.
